@@ -473,7 +473,9 @@ class InstanceValue(Object):
         for b in reversed(self.cls.bases):
             o = b.call(self.ctx)
             if o and not isinstance(o, InstanceValue):
-                attrs.update(o._attrs)  # instance of a runtime class
+                # instance of a runtime class; what else a callable "base"
+                # returns (class C(func)) need not have an attribute table
+                attrs.update(getattr(o, '_attrs', None) or {})
         attrs.update(self.cls._attrs)
         attrs.update(self._assigned)
         return attrs
